@@ -67,7 +67,7 @@ CHECKS["C05"] = dict(
          "returns exactly the value the documented operator table defines (Spec/ExprSpec.v: i64 arithmetic, 0/1 comparisons, ~ = "
          "complement, truncating / and %, byte/word selectors, exp2) and fails exactly where it says the build must fail; "
          "C05_precedence_table: the operator table regenerated from the grammar source places all 18+3 operators on the documented "
-         "levels. Tie: text -> AST -> value compared with document::expr / Expr::run on the full operator x boundary grid, all "
+         "levels; C05_negated_name_operand: a negated name beginning with x, y or z is an expression operand, not a pre-decrement. Tie: text -> AST -> value compared with document::expr / Expr::run on the full operator x boundary grid, all "
          "operator-pair nestings, random trees in minimal/blank/redundant-parenthesis renderings, hostile and mutated texts. "
          "C05_parse / C05_parse_minimal / C05_parse_in_context: for every tree and every printer that parenthesises at least where the "
          "documented levels require (left-associative binary levels, unary above all) - and, C05_parse_any_blanks_and_parentheses, with any blanks and "
@@ -161,7 +161,7 @@ CHECKS["C16"] = dict(
          "panic; cyclic symbols / recursive macros end in an error at depth 64; all model functions are total. Not expressible in Gallina: "
          "native stack depth, time, allocator - exercised by ./check C16: every case in an isolated worker (3 GB limit, watchdog), "
          "bounded-exhaustive single-line programs (153 heads x 0-2 operands from a 43-entry hostile dictionary), structural extremes, "
-         "mutated programs, 64 KiB repeated-line programs and lines with unbalanced parentheses answered within 3 s; three deep-nesting inputs are open known findings. C16_no_truncation / C16_counter_bounded: an advance that reaches 2^32 is an error whatever its size; accepted counters stay below 2^32." + PROG,
+         "mutated programs, 64 KiB repeated-line programs and lines with unbalanced parentheses answered within 3 s; three deep-nesting inputs and a self-calling macro that doubles its argument are open known findings. C16_no_truncation / C16_counter_bounded: an advance that reaches 2^32 is an error whatever its size; accepted counters stay below 2^32." + PROG,
     note=BASE + " The remaining Panic sites of the model are the 32-bit additions of pass 2, unreachable after pass 1's check (not proved). "
          "'Promptly' is operationalised as 3 s (two tries) in the debug worker for 64 KiB - the bound of the quantifier - of one kind of "
          "line each; everything else runs under a 10 s watchdog.",
